@@ -344,6 +344,11 @@ def index_family():
         (spec2, [cf('Item', 'owner', ('db_column', 'null'))]),
         (spec2, [cf('Item', 'tags', ('db_table', '"vapp_item_labels"'))]),
         (spec2, [cf('Item', 'plain', ('db_table', '"vapp_item_plain2"'))]),
+        # the index a relation column gets by default is switched off (and on again), alone and next to a rebuild
+        (spec2, [cf('Item', 'owner', ('db_index', 'false'))]),
+        (spec2, [cf('Item', 'owner', ('db_index', 'false')), cf('Item', 'owner', ('db_index', 'true'))]),
+        (spec2, [cf('Item', 'owner', ('db_index', 'false')),
+                 {'t': 'AddField', 'model': 'Item', 'field': 'extra', 'ftype': 'IntegerField', 'initial': '1', 'attrs': []}]),
     ]
 
 
